@@ -50,3 +50,31 @@ pub fn run() {
     }
     println!("binary: ok={} err={}", ok, err);
 }
+
+pub fn run_ty() {
+    use crate::tyseed::*;
+    use serde::de::DeserializeSeed;
+    let mut rng = Rng(11);
+    let cfg = DocCfg::save_style();
+    let (mut same, mut differ, mut errs) = (0, 0, 0);
+    let mut kinds = std::collections::BTreeMap::<String, usize>::new();
+    let mut shown = 0;
+    for _ in 0..20000 {
+        let doc = gen_doc(&mut rng, &cfg);
+        let ty = doc_ty(&mut rng, &doc, true);
+        let data = render_layout(&mut rng, &LayoutCfg::reader_safe(), &lexemes(&doc));
+        let a = match jomini::TextDeserializer::from_windows1252_slice(&data) {
+            Ok(de) => match TySeed(&ty).deserialize(&de) { Ok(v) => v, Err(e) => err_class(&e.to_string()) },
+            Err(_) => "err:parse".to_string(),
+        };
+        let rdr = jomini::text::TokenReader::new(&data[..]);
+        let mut de = jomini::TextDeserializer::from_windows1252_reader(rdr);
+        let b = match TySeed(&ty).deserialize(&mut de) { Ok(v) => v, Err(e) => err_class(&e.to_string()) };
+        if a.starts_with("err") { errs += 1; *kinds.entry(a.clone()).or_insert(0) += 1; }
+        if a == b { same += 1; } else {
+            differ += 1;
+            if shown < 6 { shown += 1; println!("TYDIFF ty={}\n data={:?}\n tape  ={}\n reader={}", show_ty(&ty), String::from_utf8_lossy(&data), a, b); }
+        }
+    }
+    println!("ty: same={} differ={} errs={} {:?}", same, differ, errs, kinds.iter().take(12).collect::<Vec<_>>());
+}
